@@ -426,6 +426,22 @@ Proof.
   destruct p as [|s r]; [reflexivity|]. rewrite H2. reflexivity.
 Qed.
 
+(* check_conf on ANY machine (whatever margins an earlier check left, whatever `step` it holds),
+   given that check_conf resets the margins when it starts *)
+Theorem check_margins_any_machine tb rows cols p st0 g :
+  tables_ok tb = true ->
+  pipeline_shape p -> all_params_ok rows cols p = true ->
+  machine_check_margins true tb (rows, cols) (rows, cols) st0 g p =
+    Some (mkG (spec_cum rows cols (pipeline_step p) p) (spec_non rows cols (pipeline_step p) p)).
+Proof.
+  intros Htb Hsh Hok. unfold machine_check_margins.
+  rewrite (check_tables_ok tb Htb). unfold check_margins; simpl fst; simpl snd.
+  rewrite (first_round_spec rows cols p st0 Hsh Hok).
+  destruct (has_validation p); [|reflexivity].
+  pose proof (second_round_spec rows cols p Hsh Hok) as H2. cbv zeta in H2.
+  destruct p as [|s r]; [reflexivity|]. rewrite H2. reflexivity.
+Qed.
+
 (* the second (right/left) round is a no-op: the result does not depend on
    whether a validation step triggers it *)
 Theorem second_round_noop tb rows cols p :
